@@ -555,22 +555,31 @@ func (d *Downstream) resume(parentConn *Conn) error {
 	d.wireConn = parentConn.wireConn
 
 	var resErr error
+	// the subscriptions are made once and kept when a request answered with a conflict is retried
+	var (
+		dpsCh     <-chan *message.DownstreamChunk
+		ackCompCh <-chan *message.DownstreamChunkAckComplete
+		metaCh    <-chan *message.DownstreamMetadata
+	)
 	retry.Do(func() (end bool) {
-		dpsCh, err := d.wireConn.SubscribeDownstreamChunk(d.ctx, d.idAlias, d.Config.QoS)
-		if err != nil {
-			resErr = fmt.Errorf("failed to SubscribeDownstreamChunk: %w", err)
-			return true
-		}
-		ackCompCh, err := d.wireConn.SubscribeDownstreamChunkAckComplete(d.ctx, d.idAlias)
-		if err != nil {
-			resErr = fmt.Errorf("failed to SubscribeDownstreamChunkAckComplete: %w", err)
-			return true
-		}
+		if dpsCh == nil {
+			var err error
+			dpsCh, err = d.wireConn.SubscribeDownstreamChunk(d.ctx, d.idAlias, d.Config.QoS)
+			if err != nil {
+				resErr = fmt.Errorf("failed to SubscribeDownstreamChunk: %w", err)
+				return true
+			}
+			ackCompCh, err = d.wireConn.SubscribeDownstreamChunkAckComplete(d.ctx, d.idAlias)
+			if err != nil {
+				resErr = fmt.Errorf("failed to SubscribeDownstreamChunkAckComplete: %w", err)
+				return true
+			}
 
-		metaCh, err := parentConn.subscribeDownstreamMetadata(d.ctx, d.idAlias, d.Config.Filters)
-		if err != nil {
-			resErr = fmt.Errorf("failed to subscribeDownstreamMetadata: %w", err)
-			return true
+			metaCh, err = parentConn.subscribeDownstreamMetadata(d.ctx, d.idAlias, d.Config.Filters)
+			if err != nil {
+				resErr = fmt.Errorf("failed to subscribeDownstreamMetadata: %w", err)
+				return true
+			}
 		}
 
 		resp, err := d.wireConn.SendDownstreamResumeRequest(d.ctx, &message.DownstreamResumeRequest{
